@@ -139,6 +139,14 @@ def run(ctx):
             ctx.notes["search_evaluations"] = int(f[1])
         elif f[0] == "NOTE" and len(f) >= 3:
             ctx.notes.setdefault("search_notes", {})[f[1]] = f[2]
+    ctx.notes["hygiene_oracles"] = (
+        "harness/c07/hygiene.go: key / iv / kid reach InitProtect and EncryptFragment as private copies with 32 guard bytes behind them "
+        "(EncryptFragment's in one buffer refilled in place for every call), must come back unchanged and are overwritten before any "
+        "observable is read (aliasing of arguments; the tenc KID / constant IV of the DECODED init are compared with the supplied ones: "
+        "checkTenc); the mdat payload stands between guard bytes during EncryptFragment; search also calls CryptSampleCenc / "
+        "EncryptSampleCbcs / DecryptSampleCbcs directly on an exact copy and on a guarded sub-slice (same result, guards intact, vs "
+        "reference AES-CTR / cbcs round trip) for maps that fit the sample and maps that run over its end (writes beyond len / "
+        "dependence on cap). Not demanded: PsshBox pointers, the Fragment / InitSegment (documented as modified).")
     unknown = 0
     for f in fails:
         if ctx.failing_input(f[1], f[2], f[3], f[4]):
